@@ -146,8 +146,11 @@ ORDER = st.integers(0, 12)
 @st.composite
 def _topo_case(draw, tier):
     n = draw(st.integers(0, 6 if tier == "thorough" else 5))
+    wide = draw(st.integers(0, 49)) == 0
+    if wide:
+        n = 7  # up to 5040 orderings (more than a thousand): sparse graphs only
     vorder = draw(st.permutations(list(range(n))))
-    dens = draw(st.sampled_from([1, 2, 3, 5]))
+    dens = 0 if wide else draw(st.sampled_from([1, 2, 3, 5]))
     edges = []
     for a in range(n):
         for b in range(n):
@@ -156,6 +159,11 @@ def _topo_case(draw, tier):
                 if r == 0 and dens >= 3:
                     edges.append([a, b])
             elif r < dens:
+                edges.append([a, b])
+    if wide:
+        for _ in range(draw(st.integers(0, 2))):
+            a, b = draw(st.integers(0, n - 1)), draw(st.integers(0, n - 1))
+            if a != b and [a, b] not in edges:
                 edges.append([a, b])
     if draw(st.booleans()):
         # make it acyclic along a hidden order so that orderings exist often
@@ -167,6 +175,8 @@ def _topo_case(draw, tier):
     ops = draw(st.lists(st.tuples(st.sampled_from(["all", "one", "all", "one", "edit"]), ORDER,
                                   st.sampled_from([0, 0, 1, 2])).map(list),
                         min_size=1, max_size=5))
+    if wide:
+        ops = ops[:2]
     return {"engine": NAME, "kind": "topo", "n": n, "vorder": list(vorder),
             "edges": [list(e) for e in eorder], "ops": ops}
 
